@@ -36,6 +36,12 @@ var levels = []slog.Level{
 	slog.LevelError + 1,
 }
 
+// enabledLevels are the levels Enabled is asked about: the record levels plus
+// values around the 16-, 32- and 64-bit boundaries.
+var enabledLevels = append(append([]slog.Level(nil), levels...),
+	slog.LevelError+4, slog.LevelError+100, 1<<15-1, 1<<15, 1<<31-1, 1<<31, 1<<32, 1<<32+8,
+	slog.Level(math.MaxInt64), slog.Level(math.MinInt64), -(1 << 15), -(1 << 31), -(1<<31)-1, -(1 << 32))
+
 var fixedTime = time.Date(2024, 10, 22, 12, 9, 59, 525_000_000, time.UTC)
 
 // ---- attributes ----
@@ -206,6 +212,14 @@ var optsTable = []optSpec{
 	{name: "info/drop-time", hasLevel: true, level: slog.LevelInfo, dropTime: true},
 	{name: "warn/drop-time", hasLevel: true, level: slog.LevelWarn, dropTime: true},
 	{name: "error/drop-time", hasLevel: true, level: slog.LevelError, dropTime: true},
+	// Levels that do not fit 16 or 32 bits ("switched off" loggers use the
+	// maximum level) and very negative ones.
+	{name: "level-2^15", hasLevel: true, level: 1 << 15},
+	{name: "level-2^31", hasLevel: true, level: 1 << 31},
+	{name: "level-2^32", hasLevel: true, level: 1 << 32},
+	{name: "level-max", hasLevel: true, level: slog.Level(math.MaxInt64)},
+	{name: "level-min", hasLevel: true, level: slog.Level(math.MinInt64)},
+	{name: "level--2^31-1", hasLevel: true, level: -(1 << 31) - 1},
 }
 
 const (
@@ -460,7 +474,7 @@ func (e *env) handleCheck(h slog.Handler, rec slog.Record, wantMsg string) (clas
 
 // checkEnabled compares Enabled with the configured level on every level.
 func checkEnabled(h slog.Handler, o optSpec) (what string) {
-	for _, l := range levels {
+	for _, l := range enabledLevels {
 		var got bool
 		if pv, _ := runlib.Try(func() { got = h.Enabled(ctx, l) }); pv != nil {
 			return fmt.Sprintf("Enabled(%d) panicked: %v", int(l), pv)
